@@ -127,6 +127,19 @@ class C02(PropertyCheck):
             jobs.append({'id': f'p{i}', 'src': src, 'calls': obs})
             terms.append(model_term(decls, obs))
             progs.append(src)
+        # designated: every comparison spelling on strings (derived operators) and ints with an output-writing operand on each side
+        k_ = 0
+        for f in ['lt', 'le', 'gt', 'ge', 'ne', 'eq']:
+            for ty_, la, lb in [('str', 'b', 'a'), ('str', 'a', 'a'), ('int', 2, 1)]:
+                for style in ['op', 'fn', 'method']:
+                    a_ = call('display', E(ty_, la))
+                    b_ = call('display', E(ty_, lb))
+                    cn = (f + '_all') if (ty_ == 'str' and f != 'eq') else None
+                    d_ = D('fn', 'c0', [], 'str', [], call('to_str', call(f, a_, b_, style=style, coqname=cn)))
+                    jobs.append({'id': f'd{k_}', 'src': d_.xr(), 'calls': ['c0']})
+                    terms.append(model_term([d_], ['c0']))
+                    progs.append(d_.xr())
+                    k_ += 1
         # precedence: flat operator expressions without parentheses vs fully parenthesised according to the table
         prec_jobs, prec_expect = self.precedence_cases(rng, 40 if tier == 'quick' else 400)
         res = {}
